@@ -826,6 +826,28 @@ mut("c06-benign-payload-len-local", "C06", RQ,
                 let consumed = self.inner.parse_stream(data, false);""",
     None, "payload_rem widened into a local first")
 
+mut("c06-getvalues-waits-for-whole-body", "C06", RQ,
+    """            if data.len() < self.payload_rem.into() {
+                // Wait for future payload bytes
+                let consumed = len - remaining;
+                self.payload_rem -= consumed as u16;
+                return Break((&mut data[consumed..], T::wrap_values(self)));
+            }""",
+    """            if data.len() < self.payload_rem.into() {
+                // Wait for future payload bytes
+                let _ = (len, remaining);
+                return Break((data, T::wrap_values(self)));
+            }""",
+    "R6.6", "a GetValues body must fit into the input buffer as a whole although every pair is small (seed C06-c)")
+mut("c05-drain-parses-at-boundary", "C05", A,
+    """        debug_assert!(self.active_stream().is_none());
+        if self.parser.is_record_boundary() {
+            return Ok(());
+        }
+""",
+    """        debug_assert!(self.active_stream().is_none());
+""",
+    "R5.5", "close() swallows a pipelined next request that is already buffered (seed C05-c)")
 # ---- C03 -------------------------------------------------------------------------------------------------
 mut("c03-stream-payload-unclamped", "C03", ST,
     """        let payload_len = min(usize::from(self.payload_rem), raw_len);""",
